@@ -257,6 +257,127 @@ def job_mog(cfg):
     return jr
 
 
+class _Dists:
+    """`distributions` as seen by MixtureOfGaussiansMADE.sample: Categorical(logits).sample((1,)) returns the component
+    indices the job fixes (every choice is one job), everything else is real torch.distributions."""
+
+    def __init__(self, picks):
+        self.picks = list(picks)
+        self.calls = 0
+
+    def Categorical(self, logits=None, probs=None):
+        outer = self
+
+        class _C:
+            def sample(self_, shape=()):
+                k = outer.picks[outer.calls]
+                outer.calls += 1
+                return torch.full(tuple(shape) + (logits.shape[0],), k, dtype=torch.long)
+
+        return _C()
+
+
+def replay_mog_sample(F, M):
+    """real sampler against the real density, narrow components: the spread of the draws of feature 0 must be the
+    standard deviation the density uses (softplus(u) + epsilon)"""
+    res = {"reproduced": False}
+    try:
+        torch.manual_seed(0)
+        net = made_n.MixtureOfGaussiansMADE(F, 8, num_blocks=1, num_mixture_components=M)
+        net.eval()
+        worst = 0.0
+        for u in (-9.0, -4.0, 0.5):
+            out = torch.zeros(1, F, M, 3)
+            out[..., 0] = -30.0
+            out[:, :, 0, 0] = 30.0
+            out[..., 2] = u
+            flat = out.reshape(1, -1)
+            net.forward = lambda inputs, context=None: flat.expand(inputs.shape[0], -1)
+            sm = net.sample(4000)
+            declared = float(torch.nn.functional.softplus(torch.tensor(u)) + net.epsilon)
+            # the density's own scale: exp(log_prob) at the mode of a (nearly) single narrow component is 1/(sqrt(2 pi) sd) per feature
+            lp0 = float(net.log_prob(torch.zeros(1, F))) / F
+            sd_density = math.exp(-lp0) / math.sqrt(2 * math.pi)
+            ratio = float(sm[:, 0].std()) / sd_density
+            res["u=%g" % u] = {"sample_std": float(sm[:, 0].std()), "density_std": sd_density, "declared": declared}
+            worst = max(worst, abs(ratio - 1))
+        res["worst_relative_std_mismatch"] = worst
+        res["reproduced"] = worst > 0.1
+    except Exception as e:  # noqa
+        res["exception"] = "%s: %s" % (type(e).__name__, e)
+        res["reproduced"] = True
+    return res
+
+
+def job_mog_sample(cfg):
+    """MixtureOfGaussiansMADE.sample: with the conditioner output free per call, the component choice fixed per job and
+    torch.randn fresh symbols, the draw of feature d is  mu_{d,k} + z_d * (softplus(u_{d,k}) + epsilon)  - the mean and
+    the standard deviation of exactly the component density that log_prob uses (job `mog`), read in the same layout."""
+    Fn, M, picks = cfg["F"], cfg["M"], cfg["picks"]
+    R = sc.new_registry()
+    solver = smt.Z3Proc()
+    jr = C01.new_jr("MixtureOfGaussiansMADE.sample")
+    rec = Rec(jr, R, solver, cfg["timeout"])
+    tag = "MADEMoG.sample/F=%d,M=%d,components=%s" % (Fn, M, list(picks))
+    try:
+        with stubs.torch_patches():
+            R.begin_run()
+            torch.manual_seed(0)
+            net = made_n.MixtureOfGaussiansMADE(Fn, 4, context_features=None, num_blocks=1, num_mixture_components=M, custom_initialization=False)
+            net.eval()
+            raws, zs = [], []
+
+            def fwd(inputs, context=None):
+                raws.append(stubs.named_tensor("out%d" % len(raws), (1, Fn * 3 * M)))
+                return raws[-1]
+
+            net.forward = fwd
+            patched_randn = torch.randn
+
+            def randn(*a, **k):
+                z = patched_randn(*a, **k)
+                zs.append(z)
+                return z
+
+            real_zeros = torch.zeros
+
+            def zeros(*size, **kw):
+                # the sample buffer the draws are written into: a symbolic zero tensor (in-place writes of symbols)
+                if len(size) == 2 and all(isinstance(v, int) for v in size) and "dtype" not in kw:
+                    return Sym(_obj(np.zeros(size)))
+                return real_zeros(*size, **kw)
+
+            with stubs.patched((torch, "randn", randn), (torch, "zeros", zeros), (made_n, "distributions", _Dists(picks))):
+                smp = net.sample(1)
+            eps = tm.const(tm.read_float(net.epsilon))
+            ok_shape = isinstance(smp, Sym) and tuple(smp.a.shape) == (1, Fn) and len(raws) == Fn and len(zs) == Fn
+            rec.check(tag + "/one conditioner pass and one normal draw per feature", ok_shape, "shape %s, %d passes, %d draws" % (getattr(getattr(smp, "a", None), "shape", None), len(raws), len(zs)))
+            if ok_shape:
+                for d_ in range(Fn):
+                    k = picks[d_]
+                    mu = raws[d_].a[0, d_ * 3 * M + k * 3 + 1].t
+                    sd = tm.add(sc.t_softplus(raws[d_].a[0, d_ * 3 * M + k * 3 + 2].t), eps)
+                    ref = tm.add(mu, tm.mul(zs[d_].a.reshape(-1)[0].t, sd))
+                    rec.identity(tag + "/x_%d==mu+z*(softplus(u)+eps) of the chosen component" % d_, smp.a[0, d_].t, ref)
+    except explore.NotModelled as e:
+        jr["inconclusive"].append({"query": tag, "notmodelled": str(e)})
+    jr["paths"] = 1
+    for f in jr.pop("failed", []):
+        with stubs.real_torch():
+            rep = replay_mog_sample(Fn, M)
+        relation = "sample==mean+noise*std"
+        s_ = {"kernel": "MixtureOfGaussiansMADE.sample", "relation": relation, "F": Fn, "M": M}
+        payload = {"property": PROP, "kernel": "MixtureOfGaussiansMADE.sample", "relation": relation, "signature": s_, "failed": f, "replay_result": rep, "replay_call": {"fn": "harness.C05:replay_mog_sample", "args": {"F": Fn, "M": M}}}
+        if rep.get("reproduced"):
+            jr["violations"].append({"kernel": "MixtureOfGaussiansMADE.sample", "relation": relation, "signature": s_, "replay": C.write_replay(PROP, "MixtureOfGaussiansMADE_sample_F%d_M%d" % (Fn, M), payload), "detail": rep})
+        else:
+            jr["inconclusive"].append({"query": f, "why": "not reproduced numerically", "replay": rep})
+        break
+    jr["samples"].append({"distribution": tag, "claim": "draw == mean + randn * (softplus(unconstrained std) + epsilon) of the selected component, same layout as log_prob"})
+    solver.close()
+    return jr
+
+
 def job_kde(cfg):
     N, D = cfg["N"], cfg["D"]
     R = sc.new_registry()
@@ -430,7 +551,7 @@ def replay(kernel, sig):
 
 
 def job(cfg):
-    return {"bernoulli": job_bernoulli, "normal": job_normal, "mog": job_mog, "kde": job_kde}[cfg["type"]](cfg)
+    return {"bernoulli": job_bernoulli, "normal": job_normal, "mog": job_mog, "mog_sample": job_mog_sample, "kde": job_kde}[cfg["type"]](cfg)
 
 
 def configs(tier):
@@ -441,6 +562,8 @@ def configs(tier):
             cfgs.append({"type": "normal", "kind": kind, "shape": shape, "timeout": t})
     for Fn, M in (((1, 1), (1, 2), (2, 1)) if tier == "quick" else ((1, 1), (1, 2), (1, 3), (2, 1), (2, 2), (2, 3), (3, 1), (3, 2))):
         cfgs.append({"type": "mog", "F": Fn, "M": M, "timeout": t})
+        for picks in itertools.product(range(M), repeat=Fn):
+            cfgs.append({"type": "mog_sample", "F": Fn, "M": M, "picks": list(picks), "timeout": t})
     for N, D in (((1, 1), (2, 1), (2, 2)) if tier == "quick" else ((1, 1), (2, 1), (3, 1), (2, 2), (3, 2), (2, 3))):
         cfgs.append({"type": "kde", "N": N, "D": D, "timeout": t})
     return cfgs
@@ -449,7 +572,7 @@ def configs(tier):
 def main():
     rep = C.Report(PROP)
     cfgs = configs(C.TIER)
-    rep.functions = C.source_hash([DN.StandardNormal, DN.DiagonalNormal, DN.ConditionalDiagonalNormal, DD.ConditionalIndependentBernoulli, made_n.MixtureOfGaussiansMADE.log_prob, torchutils.gaussian_kde_log_eval])
+    rep.functions = C.source_hash([DN.StandardNormal, DN.DiagonalNormal, DN.ConditionalDiagonalNormal, DD.ConditionalIndependentBernoulli, made_n.MixtureOfGaussiansMADE.log_prob, made_n.MixtureOfGaussiansMADE.sample, torchutils.gaussian_kde_log_eval])
     rep.bounds = {"bernoulli_D": sorted({c["D"] for c in cfgs if c["type"] == "bernoulli"}), "normal_event_shapes": [[1], [2], [2, 1]], "mixture": sorted({(c["F"], c["M"]) for c in cfgs if c["type"] == "mog"}), "kde": sorted({(c["N"], c["D"]) for c in cfgs if c["type"] == "kde"})}
     rep.assumptions = [
         "the Gaussian integral (a density of the form (2 pi)^(-D/2) prod 1/sigma exp(-1/2 sum z^2) integrates to one) and 'the expectation of a Gaussian is its mean' are assumed mathematics; the checks establish that the code computes exactly that closed form",
@@ -457,7 +580,7 @@ def main():
         "MADE mixture: the conditioner is replaced by free outputs in MADE's unit order (its autoregressive structure is C06); ancestral sampling uses torch.distributions.Categorical and is outside",
         "statistical agreement of samples with the density follows from the structural identities and the randn / rand stubs' contracts",
     ]
-    rep.stubs = ["torch.randn / rand -> fresh symbols", "MixtureOfGaussiansMADE.forward -> free symbolic outputs"]
+    rep.stubs = ["torch.randn / rand -> fresh symbols", "MixtureOfGaussiansMADE.forward -> free symbolic outputs (fresh per autoregressive pass in sample)", "distributions.Categorical(...).sample -> the component index fixed by the job (every choice is a job)", "torch.zeros(rows, features) -> symbolic zero buffer for the draws"]
     for jr in C.run_jobs(job, cfgs):
         rep.add_job(jr)
     sys.exit(rep.finish("closed-form identities of the real log-densities against reference densities (exact Bernoulli summation, Gaussian / mixture forms) as polynomial identities in exp-atoms decided by z3, constants checked numerically, sampling structure and mean() on terms"))
